@@ -14,7 +14,7 @@ from ..world import EPS, World, compare, expect_mtl, gen_sched, identity_sched, 
 ID = "C02"
 LEVEL = "exploration"
 BUDGET = {
-    "quick": {"runs": 1600, "wall": 240, "chunk": 25},
+    "quick": {"runs": 4000, "wall": 240, "chunk": 25},
     "thorough": {"runs": 40000, "wall": 3000, "chunk": 100},
 }
 RULE = (
